@@ -191,7 +191,7 @@ theorem needsFix_iff {raw : Raw TCol} {r : Row TField} {k : Int} {u : Bytes}
         simp only [beq_eq_false_iff_ne, ne_eq, FVal.str.injEq]; exact List.cons_ne_nil a t
       rw [this]; rfl
 
-/-! ## add / get -/
+/-! ## what an aligned SELECT reads from a row an aligned write stored -/
 
 theorem tInsert_ok {d d' : TDb} {l : List (TCol × Val)} {i : Int} (h : tInsert d l = (d', .ok i)) :
     i = d.seq + 1 ∧
@@ -217,7 +217,6 @@ theorem tAdd_ok {st : TStmts} {d d' : TDb} {r : Row TField} {i : Int} (h : tAdd 
     | throw e => rw [he] at h; cases h
     | ub u => rw [he] at h; cases h
 
-
 theorem normRowT_other {s : Schema2} {u : Val} {le : Option Int} {i : Int} {r : Row TField} {f : TField}
     (h1 : f ≠ .id) (h2 : f ≠ .origin_track_id) (h3 : f ≠ .origin_database_uuid) (h4 : f ≠ .last_edit_time) :
     normRowT s u le i r f = if f.present s then normV f.ty (r f) else absentVal f.ty := by
@@ -227,40 +226,54 @@ theorem absentVal_read (raw : Raw TCol) (ty : FTy) :
     readSrc raw (absentSrc ty : RSrc TCol) = .ok (absentVal ty) := by
   cases ty <;> rfl
 
+theorem stampRow_other (st : Option Int) (raw : Raw TCol) {c : TCol} (h : c ≠ .lastEditTime) :
+    stampRow st raw c = raw c := by
+  cases st with
+  | none => rfl
+  | some t => exact setCol_other _ _ h
+
+theorem rowId_stampRow (st : Option Int) (raw : Raw TCol) : rowId .id (stampRow st raw) = rowId .id raw := by
+  unfold rowId; rw [stampRow_other _ _ (by decide)]
+
 /-- What an aligned SELECT reads, member by member, from the row an aligned
-INSERT stored (after the origin fix-up trigger). -/
-theorem read_inserted {s : Schema2} {ins : List (WB TCol TField)} {r : Row TField} {l : List (TCol × Val)}
-    (hins : alignedW tSpec (TField.writable s) [] ins = true) (he : evalParams r ins = .ok l)
-    (hr : wtRowT r) (uuid : Val) (i : Int) (f : TField) :
-    readSrc (applyFix uuid (assign (setCol nullRaw .id (.int i)) l)) (expectedSrc tSpec (TField.present s) f)
-      = .ok (normRowT s uuid none i r f) := by
-  let base : Raw TCol := setCol nullRaw .id (.int i)
+INSERT / UPDATE stored over `base` (whose id is `i`), after the origin fix-up
+trigger and — when `stamp` is `some t` — the timestamp trigger. -/
+theorem read_written {s : Schema2} {ps : List (WB TCol TField)} {r : Row TField} {l : List (TCol × Val)}
+    (hps : alignedW tSpec (TField.writable s) [] ps = true) (he : evalParams r ps = .ok l)
+    (hr : wtRowT r) (uuid : Val) (base : Raw TCol) (i : Int) (hbase : rowId .id base = i)
+    (stamp : Option Int)
+    (hst : ∀ t, stamp = some t → in64 (t * 1000000000) = true ∧ TField.present s .last_edit_time = true)
+    (f : TField) :
+    readSrc (stampRow stamp (applyFix uuid (assign base l))) (expectedSrc tSpec (TField.present s) f)
+      = .ok (normRowT s uuid stamp i r f) := by
   let raw0 := assign base l
-  have hid0 : raw0 .id = .int i := by
+  have hid0 : raw0 .id = base .id := by
     show assign base l .id = _
-    rw [assign_not_mem _ _ _ (id_not_written hins he)]
-    exact setCol_same _ _ _
-  have hrid : rowId .id raw0 = i := by simp [rowId, hid0, readInt]
+    rw [assign_not_mem _ _ _ (id_not_written hps he)]
+  have hrid : rowId .id raw0 = i := by rw [← hbase]; unfold rowId; rw [hid0]
   -- the origin pair as stored
   have hot : TField.origin_track_id ∈ TField.writable s := TField.mem_writable.mpr ⟨by decide, rfl⟩
   have hou : TField.origin_database_uuid ∈ TField.writable s := TField.mem_writable.mpr ⟨by decide, rfl⟩
-  obtain ⟨x1, hx1, hc1⟩ := assign_evalParams hins he base hot
-  obtain ⟨x2, hx2, hc2⟩ := assign_evalParams hins he base hou
+  obtain ⟨x1, hx1, hc1⟩ := assign_evalParams hps he base hot
+  obtain ⟨x2, hx2, hc2⟩ := assign_evalParams hps he base hou
   obtain ⟨k, hk1, hk2⟩ := written_i64 (hr .origin_track_id) rfl hx1
   obtain ⟨u, hu1, hu2⟩ := written_str (hr .origin_database_uuid) rfl hx2
   subst hk2 hu2
   have hfix : needsFix raw0 = originUnset r := needsFix_iff hk1 hc1 hu1 hc2
   by_cases hfid : f = .id
   · subst hfid
-    have : (applyFix uuid raw0) .id = .int i := by
-      rw [applyFix_other _ _ (by decide) (by decide)]; exact hid0
+    have : (stampRow stamp (applyFix uuid raw0)) .id = raw0 .id := by
+      rw [stampRow_other _ _ (by decide), applyFix_other _ _ (by decide) (by decide)]
     simp only [expectedSrc, TField.present, if_true, readSrc, tSpec_colOf, tSpec_tyOf, TField.col, TField.ty]
-    show rconv _ _ ((applyFix uuid raw0) .id) = _
-    rw [this]; rfl
+    show rconv _ _ ((stampRow stamp (applyFix uuid raw0)) .id) = _
+    rw [this]
+    show Res.ok (FVal.int (readInt (raw0 .id))) = _
+    rw [show readInt (raw0 .id) = i from hrid]; rfl
   by_cases hf1 : f = .origin_track_id
   · subst hf1
     simp only [expectedSrc, TField.present, if_true, readSrc, tSpec_colOf, tSpec_tyOf, TField.col, TField.ty]
-    show rconv _ _ ((applyFix uuid raw0) .originTrackId) = _
+    show rconv _ _ ((stampRow stamp (applyFix uuid raw0)) .originTrackId) = _
+    rw [stampRow_other _ _ (by decide)]
     unfold applyFix
     rw [hfix]
     by_cases hun : originUnset r = true
@@ -271,7 +284,8 @@ theorem read_inserted {s : Schema2} {ins : List (WB TCol TField)} {r : Row TFiel
   by_cases hf2 : f = .origin_database_uuid
   · subst hf2
     simp only [expectedSrc, TField.present, if_true, readSrc, tSpec_colOf, tSpec_tyOf, TField.col, TField.ty]
-    show rconv _ _ ((applyFix uuid raw0) .originDatabaseUuid) = _
+    show rconv _ _ ((stampRow stamp (applyFix uuid raw0)) .originDatabaseUuid) = _
+    rw [stampRow_other _ _ (by decide)]
     unfold applyFix
     rw [hfix]
     by_cases hun : originUnset r = true
@@ -279,31 +293,59 @@ theorem read_inserted {s : Schema2} {ins : List (WB TCol TField)} {r : Row TFiel
       rw [setCol_same]; rfl
     · simp only [hun, Bool.false_eq_true, if_false, normRowT]
       rw [show raw0 .originDatabaseUuid = .text u from hc2, hu1]; rfl
+  -- the stamped last-edit time
+  by_cases hstamped : f = .last_edit_time ∧ stamp.isSome
+  · obtain ⟨hfl, hsome⟩ := hstamped
+    subst hfl
+    obtain ⟨t, rfl⟩ := Option.isSome_iff_exists.mp hsome
+    obtain ⟨ht, hpres⟩ := hst t rfl
+    simp only [expectedSrc, hpres, if_true, readSrc, tSpec_colOf, tSpec_tyOf, TField.col, TField.ty, normRowT,
+      stampRow, setCol_same, FTy.pty, FTy.rconv, rconv, readInt, toTimePoint, ht]
+    rfl
   -- every other member
-  have hnorm : normRowT s uuid none i r f = if f.present s then normV f.ty (r f) else absentVal f.ty := by
+  have hnorm : normRowT s uuid stamp i r f = if f.present s then normV f.ty (r f) else absentVal f.ty := by
     by_cases h4 : f = .last_edit_time
-    · subst h4; simp only [normRowT]
+    · subst h4
+      have : stamp = none := by
+        cases stamp with
+        | none => rfl
+        | some t => exact absurd ⟨rfl, rfl⟩ hstamped
+      subst this
+      simp only [normRowT]
     · exact normRowT_other hfid hf1 hf2 h4
   rw [hnorm]
   by_cases hp : f.present s = true
   · simp only [expectedSrc, hp, if_true]
     have hfw : f ∈ TField.writable s := TField.mem_writable.mpr ⟨hfid, hp⟩
-    have hc : (applyFix uuid raw0) (tSpec.colOf f) = assign base l (tSpec.colOf f) := by
+    have hc : (stampRow stamp (applyFix uuid raw0)) (tSpec.colOf f) = assign base l (tSpec.colOf f) := by
       rw [tSpec_colOf]
+      have hne : f.col ≠ .lastEditTime ∨ stamp = none := by
+        by_cases h4 : f = .last_edit_time
+        · right
+          cases stamp with
+          | none => rfl
+          | some t => exact absurd ⟨h4, rfl⟩ hstamped
+        · left; exact fun h => h4 (TField.col_inj (g := .last_edit_time) h)
+      have h1 : (stampRow stamp (applyFix uuid raw0)) f.col = (applyFix uuid raw0) f.col := by
+        rcases hne with h | h
+        · exact stampRow_other _ _ h
+        · subst h; rfl
+      rw [h1]
       exact applyFix_other _ _ (fun h => hf1 (TField.col_inj (g := .origin_track_id) h))
         (fun h => hf2 (TField.col_inj (g := .origin_database_uuid) h))
-    exact read_after_write hins he base _ hfw (hr f) hc
+    exact read_after_write hps he base _ hfw (hr f) hc
   · simp only [expectedSrc, hp, Bool.false_eq_true, if_false]
     exact absentVal_read _ _
 
-
-theorem rowId_inserted {s : Schema2} {ins : List (WB TCol TField)} {r : Row TField} {l : List (TCol × Val)}
-    (hins : alignedW tSpec (TField.writable s) [] ins = true) (he : evalParams r ins = .ok l)
-    (uuid : Val) (i : Int) :
-    rowId .id (applyFix uuid (assign (setCol nullRaw .id (.int i)) l)) = i := by
-  rw [rowId_applyFix]
+theorem rowId_written {s : Schema2} {ps : List (WB TCol TField)} {r : Row TField} {l : List (TCol × Val)}
+    (hps : alignedW tSpec (TField.writable s) [] ps = true) (he : evalParams r ps = .ok l)
+    (uuid : Val) (base : Raw TCol) (stamp : Option Int) :
+    rowId .id (stampRow stamp (applyFix uuid (assign base l))) = rowId .id base := by
+  rw [rowId_stampRow, rowId_applyFix]
   unfold rowId
-  rw [assign_not_mem _ _ _ (id_not_written hins he), setCol_same]; rfl
+  rw [assign_not_mem _ _ _ (id_not_written hps he)]
+
+/-! ## add / get -/
 
 /-- `get` after `add`: the row written, in normal form, with the assigned id
 and the origin pair fixed up. -/
@@ -318,11 +360,570 @@ theorem track_add_get {s : Schema2} {st : TStmts} (ha : alignedT s st = true)
   subst hi1 hd'
   unfold tGet
   simp only
-  rw [findRow_append_fresh .id d.rows _ (d.seq + 1)
-    (fun r hr => by have := hwf r hr; omega) (rowId_inserted hins he _ _)]
+  have hid : rowId .id (applyFix d.uuid (assign (setCol nullRaw .id (.int (d.seq + 1))) l)) = d.seq + 1 := by
+    have := rowId_written hins he d.uuid (setCol nullRaw .id (.int (d.seq + 1))) none
+    simp only [stampRow] at this
+    rw [this]; simp [rowId, setCol, readInt]
+  rw [findRow_append_fresh .id d.rows _ (d.seq + 1) (fun r hr => by have := hwf r hr; omega) hid]
   simp only
-  rw [readRow_aligned (normRowT s d.uuid none (d.seq + 1) r) hsel TField.nodup_all TField.mem_all
-    (read_inserted hins he hr d.uuid (d.seq + 1))]
+  have := read_written hins he hr d.uuid (setCol nullRaw .id (.int (d.seq + 1))) (d.seq + 1)
+    (by simp [rowId, setCol, readInt]) none (fun t ht => by cases ht)
+  simp only [stampRow] at this
+  rw [readRow_aligned (normRowT s d.uuid none (d.seq + 1) r) hsel TField.nodup_all TField.mem_all this]
+
+/-! ## update / get -/
+
+theorem tUpdateWhereId_ok {s : Schema2} {d d' : TDb} {i : Int} {l : List (TCol × Val)} {n : Nat}
+    (h : tUpdateWhereId s d i l = (d', .ok n)) :
+    (findRow .id d.rows i = none ∧ d' = d ∧ n = 0) ∨
+    (∃ old, findRow .id d.rows i = some old ∧ n = 1 ∧
+      d' = { d with rows := updRow .id d.rows i (fun _ => afterUpdate s d (l.map (·.1)) (assign old l)) }) := by
+  unfold tUpdateWhereId at h
+  cases hf : findRow .id d.rows i with
+  | none =>
+    rw [hf] at h
+    simp only [Prod.mk.injEq, Res.ok.injEq] at h
+    exact Or.inl ⟨rfl, h.1.symm, h.2.symm⟩
+  | some old =>
+    rw [hf] at h
+    simp only at h
+    split at h
+    · cases h
+    · split at h
+      · cases h
+      · simp only [Prod.mk.injEq, Res.ok.injEq] at h
+        exact Or.inr ⟨old, rfl, h.2.symm, h.1.symm⟩
+
+/-- A failed `UPDATE … WHERE id = ?` leaves the table as it was. -/
+theorem tUpdateWhereId_fail {s : Schema2} {d d' : TDb} {i : Int} {l : List (TCol × Val)} {e : Exn}
+    (h : tUpdateWhereId s d i l = (d', .throw e)) : d' = d := by
+  unfold tUpdateWhereId at h
+  cases hf : findRow .id d.rows i with
+  | none => rw [hf] at h; cases h
+  | some old =>
+    rw [hf] at h
+    simp only at h
+    split at h
+    · simp only [Prod.mk.injEq] at h; exact h.1.symm
+    · split at h
+      · simp only [Prod.mk.injEq] at h; exact h.1.symm
+      · cases h
+
+theorem tUpdateWhereId_no_ub {s : Schema2} {d : TDb} {i : Int} {l : List (TCol × Val)} {u : Ub} :
+    (tUpdateWhereId s d i l).2 ≠ .ub u := by
+  unfold tUpdateWhereId
+  cases findRow .id d.rows i with
+  | none => simp
+  | some old =>
+    simp only
+    split
+    · simp
+    · split <;> simp
+
+theorem tUpdate_ok {s : Schema2} {st : TStmts} {d d' : TDb} {r : Row TField}
+    (h : tUpdate s st d r = (d', .ok ())) :
+    ∃ i l n, r .id = .int i ∧ i ≠ 0 ∧ evalParams r st.upd = .ok l ∧ tUpdateWhereId s d i l = (d', .ok n) := by
+  unfold tUpdate at h
+  split at h
+  · cases h
+  · rename_i hid
+    cases he : evalParams r st.upd with
+    | throw e => rw [he] at h; cases h
+    | ub u => rw [he] at h; cases h
+    | ok l =>
+      rw [he] at h
+      simp only at h
+      cases hrid : r .id with
+      | int i =>
+        rw [hrid] at h
+        simp only at h
+        have hi0 : i ≠ 0 := by
+          intro h0; subst h0; exact hid hrid
+        cases hu : tUpdateWhereId s d i l with
+        | mk d2 res =>
+          rw [hu] at h
+          cases res with
+          | ok n =>
+            simp only [Prod.mk.injEq] at h
+            exact ⟨i, l, n, rfl, hi0, rfl, by rw [hu, h.1]⟩
+          | throw e => simp only [Prod.mk.injEq] at h; exact absurd h.2 (by simp)
+          | ub u => simp only [Prod.mk.injEq] at h; exact absurd h.2 (by simp)
+      | _ => rw [hrid] at h; simp only [Prod.mk.injEq] at h; exact absurd h.2 (by simp)
+
+/-- The full `UPDATE` names a stamped column, so on 2.20.3+ the database stamps the row. -/
+theorem stampOf_full {s : Schema2} {ps : List (WB TCol TField)} {r : Row TField} {l : List (TCol × Val)}
+    (hps : alignedW tSpec (TField.writable s) [] ps = true) (he : evalParams r ps = .ok l) (clock : Int) :
+    stampOf s clock (l.map (·.1)) = if s.ge .s2_20_3 then some clock else none := by
+  have hlen : TCol.length ∈ l.map (·.1) := by
+    rw [(evalParams_ok he).1]
+    exact alignedW_mem hps (f := .length) (TField.mem_writable.mpr ⟨by decide, rfl⟩)
+  have : (l.map (·.1)).any (fun c => tsCols.contains c) = true := by
+    rw [List.any_eq_true]
+    exact ⟨_, hlen, by decide⟩
+  unfold stampOf stamps
+  rw [this, Bool.and_true]
+
+theorem present_lastEdit (s : Schema2) : TField.present s .last_edit_time = s.ge .s2_20_3 := rfl
+
+/-- `get` after `update` of an existing row: the row written, in normal form;
+the origin pair fixed up, the last-edit time stamped by the database on
+2.20.3+; every other row is untouched. -/
+theorem track_update_get {s : Schema2} {st : TStmts} (ha : alignedT s st = true)
+    {d d' : TDb} {r : Row TField} (hr : wtRowT r) {i : Int} (hid : r .id = .int i)
+    {old : Raw TCol} (hex : findRow .id d.rows i = some old)
+    (hclk : in64 (d.clock * 1000000000) = true)
+    (h : tUpdate s st d r = (d', .ok ())) :
+    tGet st d' i = .ok (some (normRowT s d.uuid (if s.ge .s2_20_3 then some d.clock else none) i r))
+    ∧ (∀ j, j ≠ i → findRow .id d'.rows j = findRow .id d.rows j)
+    ∧ d'.seq = d.seq ∧ d'.uuid = d.uuid ∧ d'.clock = d.clock := by
+  simp only [alignedT, Bool.and_eq_true] at ha
+  obtain ⟨⟨⟨⟨⟨⟨_, _⟩, hupd⟩, hsel⟩, _⟩, _⟩, _⟩ := ha
+  obtain ⟨i', l, n, hid', _, he, hu⟩ := tUpdate_ok h
+  rw [hid] at hid'
+  cases hid'
+  rcases tUpdateWhereId_ok hu with ⟨hnone, _, _⟩ | ⟨old', hold, _, hd'⟩
+  · rw [hex] at hnone; cases hnone
+  · rw [hex] at hold; cases hold
+    subst hd'
+    obtain ⟨_, hrid⟩ := findRow_some hex
+    have hstamp := stampOf_full hupd he d.clock
+    have hnew : rowId .id (afterUpdate s d (l.map (·.1)) (assign old l)) = i := by
+      unfold afterUpdate
+      rw [rowId_written hupd he]; exact hrid
+    refine ⟨?_, ?_, rfl, rfl, rfl⟩
+    · unfold tGet
+      simp only
+      rw [findRow_updRow_same .id d.rows i _ hex hnew]
+      simp only
+      have := read_written hupd he hr d.uuid old i hrid (stampOf s d.clock (l.map (·.1)))
+        (by
+          intro t ht
+          rw [hstamp] at ht
+          split at ht
+          · rename_i hge
+            cases ht
+            exact ⟨hclk, by rw [present_lastEdit]; exact hge⟩
+          · cases ht)
+      rw [hstamp] at this
+      unfold afterUpdate
+      rw [hstamp]
+      rw [readRow_aligned _ hsel TField.nodup_all TField.mem_all this]
+    · intro j hj
+      exact findRow_updRow_other .id d.rows i j _ hj (fun _ _ _ => hnew)
+
+/-! ## per-column accessors, missing rows -/
+
+theorem findAcc_aligned {l : List (Acc TCol TField Schema2)} (ha : alignedAcc l = true) {f : TField}
+    (hf : f ≠ .id) :
+    ∃ a, findAcc l f = some a ∧ a.field = f ∧ a.col = f.col ∧ a.ty = f.accTy ∧ a.minSchema = f.accGuard := by
+  simp only [alignedAcc, Bool.and_eq_true, decide_eq_true_eq, List.all_eq_true] at ha
+  obtain ⟨hfields, hall⟩ := ha
+  have hmem : f ∈ l.map (·.field) := by
+    rw [hfields]; simp [List.mem_filter, TField.mem_all, hf]
+  unfold findAcc
+  cases hfa : l.find? (fun a => a.field == f) with
+  | none =>
+    rw [List.find?_eq_none] at hfa
+    obtain ⟨a, ha1, ha2⟩ := List.mem_map.mp hmem
+    exact absurd (by simp [ha2]) (hfa a ha1)
+  | some a =>
+    have h1 := List.find?_some hfa
+    have h2 := List.mem_of_find?_eq_some hfa
+    have hfield : a.field = f := by simpa using h1
+    have := hall a h2
+    rw [hfield] at this
+    exact ⟨a, rfl, hfield, this.1.1, this.1.2, this.2⟩
+
+theorem guard_present {s : Schema2} {f : TField} (hf : f ≠ .id) :
+    guardFails s f.accGuard = !f.present s := by
+  cases f <;> first | rfl | (cases s <;> rfl)
+
+theorem fromAcc_same {f : TField} (h : f.accTy = f.ty) (v : FVal) : fromAcc f v = v := by
+  cases f <;> first | rfl | (exact absurd h (by decide))
+
+/-- An accessor read denotes what the row's SELECT reads from the same column. -/
+theorem acc_read (f : TField) (x : Val) {w : FVal} (h : rconv f.ty.pty f.ty.rconv x = .ok w) :
+    ∃ v, rconv f.accTy.pty f.accTy.rconv x = .ok v ∧ fromAcc f v = w := by
+  by_cases hsame : f.accTy = f.ty
+  · exact ⟨w, by rw [hsame]; exact h, fromAcc_same hsame w⟩
+  · -- the two creation dates
+    have hty : f.ty = .time ∧ f.accTy = .otime := by
+      cases f <;> first | (exact absurd rfl hsame) | exact ⟨rfl, rfl⟩
+    obtain ⟨h1, h2⟩ := hty
+    rw [h1] at h
+    rw [h2]
+    simp only [FTy.pty, FTy.rconv, rconv] at h ⊢
+    cases x with
+    | null =>
+      simp only [readInt, readOptInt] at h ⊢
+      refine ⟨_, rfl, ?_⟩
+      have : toTimePoint 0 = .ok 0 := by decide
+      rw [this] at h
+      simp only [Res.bind, Res.ok.injEq] at h
+      subst h
+      simp only [fromAcc, h1, h2]
+    | _ =>
+      simp only [readOptInt]
+      cases ht : toTimePoint (readInt _) with
+      | ok t =>
+        rw [ht] at h
+        simp only [Res.bind, Res.ok.injEq] at h
+        subst h
+        exact ⟨_, rfl, by simp only [fromAcc, h1, h2]⟩
+      | throw e => rw [ht] at h; cases h
+      | ub u => rw [ht] at h; cases h
+
+
+theorem tGet_found {st : TStmts} {d : TDb} {i : Int} {raw : Raw TCol} {g : Row TField}
+    (hfind : findRow .id d.rows i = some raw) (hget : tGet st d i = .ok (some g)) :
+    readRow raw st.sel = .ok g := by
+  unfold tGet at hget
+  rw [hfind] at hget
+  simp only at hget
+  cases hr : readRow raw st.sel with
+  | ok g' => rw [hr] at hget; simp only [Res.ok.injEq, Option.some.injEq] at hget; rw [hget]
+  | throw e => rw [hr] at hget; cases hget
+  | ub u => rw [hr] at hget; cases hget
+
+/-- **Per-column getter.**  On an existing row the getter of a member the schema
+has a column for denotes the member of the row `get` returns; on a schema
+without the column it reports `unsupported_operation`. -/
+theorem track_getc {s : Schema2} {st : TStmts} (ha : alignedT s st = true) {d : TDb} {i : Int}
+    {raw : Raw TCol} (hfind : findRow .id d.rows i = some raw) {g : Row TField}
+    (hget : tGet st d i = .ok (some g)) {f : TField} (hf : f ≠ .id) :
+    if f.present s then ∃ v, tGetc s st d f i = .ok v ∧ fromAcc f v = g f
+    else tGetc s st d f i = .throw (.dj "unsupported_operation") := by
+  simp only [alignedT, Bool.and_eq_true] at ha
+  obtain ⟨⟨⟨⟨⟨⟨_, _⟩, _⟩, hsel⟩, hgetters⟩, _⟩, _⟩ := ha
+  obtain ⟨a, hfa, _, hcol, hty, hguard⟩ := findAcc_aligned hgetters hf
+  unfold tGetc
+  rw [hfa]
+  simp only
+  rw [hguard, guard_present hf]
+  by_cases hp : f.present s = true
+  · simp only [hp, if_true, Bool.not_true, Bool.false_eq_true, if_false, hfind]
+    have hread := readRow_aligned_inv hsel TField.nodup_all (tGet_found hfind hget) (f := f) (TField.mem_all f)
+    simp only [expectedSrc, hp, if_true, readSrc, tSpec_colOf, tSpec_tyOf] at hread
+    rw [hcol, hty]
+    exact acc_read f _ hread
+  · simp only [hp, Bool.false_eq_true, if_false, Bool.not_false, if_true]
+
+/-- **Missing rows.**  Every column accessor and `remove` naming an id with no
+row reports an error and changes nothing. -/
+theorem track_missing_row {s : Schema2} {st : TStmts} (ha : alignedT s st = true) {d : TDb} {i : Int}
+    (hmiss : findRow .id d.rows i = none) :
+    (∀ f, f ≠ .id → ∃ e, tGetc s st d f i = .throw e) ∧
+    (∀ f v, f ≠ .id → ∃ e, tSetc s st d f i v = (d, .throw e)) ∧
+    tRemove st d i = (d, .throw .invalid_argument) := by
+  simp only [alignedT, Bool.and_eq_true] at ha
+  obtain ⟨⟨⟨⟨⟨⟨_, _⟩, _⟩, _⟩, hgetters⟩, hsetters⟩, hrm⟩ := ha
+  refine ⟨?_, ?_, ?_⟩
+  · intro f hf
+    obtain ⟨a, hfa, _, _, _, _⟩ := findAcc_aligned hgetters hf
+    unfold tGetc
+    rw [hfa]
+    simp only
+    split
+    · exact ⟨_, rfl⟩
+    · rw [hmiss]; exact ⟨_, rfl⟩
+  · intro f v hf
+    obtain ⟨a, hfa, _, _, _, _⟩ := findAcc_aligned hsetters hf
+    unfold tSetc
+    rw [hfa]
+    simp only
+    split
+    · exact ⟨_, rfl⟩
+    · cases hw : wconv a.ty.wconv v with
+      | throw e => exact ⟨_, rfl⟩
+      | ub u => exact absurd hw (wconv_no_ub _ _ _)
+      | ok x =>
+        simp only
+        unfold tUpdateWhereId
+        rw [hmiss]
+        exact ⟨_, rfl⟩
+  · unfold tRemove
+    rw [hmiss, hrm]
+    rfl
+
+
+/-- A value written through the setter of `f` reads back, through the row's
+SELECT, as the member it denotes in normal form. -/
+theorem acc_write_read (f : TField) {v : FVal} {x : Val} (hv : wtv f.accTy v = true)
+    (hw : wconv f.accTy.wconv v = .ok x) :
+    rconv f.ty.pty f.ty.rconv x = .ok (normV f.ty (fromAcc f v)) := by
+  by_cases hsame : f.accTy = f.ty
+  · rw [fromAcc_same hsame]
+    rw [hsame] at hv hw
+    exact conv_roundtrip hv hw
+  · have hty : f.ty = .time ∧ f.accTy = .otime := by
+      cases f <;> first | (exact absurd rfl hsame) | exact ⟨rfl, rfl⟩
+    obtain ⟨h1, h2⟩ := hty
+    rw [h2] at hv hw
+    rw [h1]
+    cases v <;> simp only [wtv, Bool.false_eq_true] at hv
+    case otime o =>
+      cases o with
+      | none =>
+        simp only [FTy.wconv, wconv, Res.ok.injEq] at hw
+        subst hw
+        simp only [fromAcc, h1, h2]
+        rfl
+      | some ns =>
+        simp only [FTy.wconv, wconv, Res.ok.injEq] at hw
+        subst hw
+        simp only [fromAcc, h1, h2, FTy.pty, FTy.rconv, rconv, readInt, toTimePoint_truncSec hv, normV]
+        rfl
+
+theorem tSetc_ok {s : Schema2} {st : TStmts} {d d' : TDb} {f : TField} {i : Int} {v : FVal}
+    (h : tSetc s st d f i v = (d', .ok ())) :
+    ∃ a x n, findAcc st.setters f = some a ∧ guardFails s a.minSchema = false ∧
+      wconv a.ty.wconv v = .ok x ∧ tUpdateWhereId s d i [(a.col, x)] = (d', .ok n) ∧ n > 0 := by
+  unfold tSetc at h
+  cases hfa : findAcc st.setters f with
+  | none => rw [hfa] at h; cases h
+  | some a =>
+    rw [hfa] at h
+    simp only at h
+    split at h
+    · cases h
+    · rename_i hg
+      cases hw : wconv a.ty.wconv v with
+      | throw e => rw [hw] at h; cases h
+      | ub u => rw [hw] at h; cases h
+      | ok x =>
+        rw [hw] at h
+        simp only at h
+        cases hu : tUpdateWhereId s d i [(a.col, x)] with
+        | mk d2 res =>
+          rw [hu] at h
+          cases res with
+          | ok n =>
+            simp only at h
+            split at h
+            · rename_i hn
+              simp only [Prod.mk.injEq] at h
+              exact ⟨a, x, n, rfl, by simpa using hg, hw, by rw [hu, h.1], hn⟩
+            · cases h
+          | throw e => cases h
+          | ub u => cases h
+
+theorem typed_zero {c : Val} (h : (match c with | .null | .int _ => true | _ => false) = true) :
+    isZeroOrNull c = (FVal.int (readInt c) == FVal.int 0) := by
+  cases c <;> simp only [Bool.false_eq_true] at h
+  · rfl
+  · rename_i k
+    simp only [isZeroOrNull, readInt]
+    by_cases hk : k = 0
+    · subst hk; rfl
+    · have : (FVal.int k == FVal.int 0) = false := by
+        simp only [beq_eq_false_iff_ne, ne_eq, FVal.int.injEq]; exact hk
+      rw [this]; simp [hk]
+
+theorem typed_empty {c : Val} (h : (match c with | .null | .text _ => true | _ => false) = true) :
+    isEmptyOrNull c = (FVal.str (readStr c) == FVal.str []) := by
+  cases c <;> simp only [Bool.false_eq_true] at h
+  · rfl
+  · rename_i u
+    simp only [isEmptyOrNull, readStr]
+    cases u with
+    | nil => rfl
+    | cons a t =>
+      have : (FVal.str (a :: t) == FVal.str []) = false := by
+        simp only [beq_eq_false_iff_ne, ne_eq, FVal.str.injEq]; exact List.cons_ne_nil a t
+      rw [this]; rfl
+
+
+theorem fixRowT_other (uuid : Val) (r : Row TField) {g : TField}
+    (h1 : g ≠ .origin_track_id) (h2 : g ≠ .origin_database_uuid) : fixRowT uuid r g = r g := by
+  cases g <;> first | rfl | contradiction
+
+theorem stampRowT_other (t : Option Int) (r : Row TField) {g : TField}
+    (h : g ≠ .last_edit_time ∨ t = none) : stampRowT t r g = r g := by
+  rcases h with h | h
+  · cases g <;> first | rfl | contradiction
+  · subst h; cases g <;> rfl
+
+/-- Reading, member by member, the row the AFTER UPDATE triggers leave, given
+what the SELECT reads from the row before them (`r1`). -/
+theorem read_afterUpdate {s : Schema2} {uuid : Val} {raw0 : Raw TCol} {r1 : Row TField} {i : Int}
+    (hA : ∀ g, readSrc raw0 (expectedSrc tSpec (TField.present s) g) = .ok (r1 g))
+    (htyped : originTyped raw0 = true) (hrid : rowId .id raw0 = i)
+    (stamp : Option Int)
+    (hst : ∀ t, stamp = some t → in64 (t * 1000000000) = true ∧ TField.present s .last_edit_time = true)
+    (g : TField) :
+    readSrc (stampRow stamp (applyFix uuid raw0)) (expectedSrc tSpec (TField.present s) g)
+      = .ok (stampRowT stamp (fixRowT uuid r1) g) := by
+  simp only [originTyped, Bool.and_eq_true] at htyped
+  have hAid := hA .id
+  have hAot := hA .origin_track_id
+  have hAou := hA .origin_database_uuid
+  simp only [expectedSrc, TField.present, if_true, readSrc, tSpec_colOf, tSpec_tyOf, TField.col, TField.ty,
+    FTy.pty, FTy.rconv, rconv, Res.ok.injEq] at hAid hAot hAou
+  have hfix : needsFix raw0 = originUnset r1 := by
+    unfold needsFix originUnset
+    rw [typed_zero htyped.1, typed_empty htyped.2, hAot, hAou]
+  -- stamped last-edit time
+  by_cases hstamped : g = .last_edit_time ∧ stamp.isSome
+  · obtain ⟨hgl, hsome⟩ := hstamped
+    subst hgl
+    obtain ⟨t, rfl⟩ := Option.isSome_iff_exists.mp hsome
+    obtain ⟨ht, hpres⟩ := hst t rfl
+    simp only [expectedSrc, hpres, if_true, readSrc, tSpec_colOf, tSpec_tyOf, TField.col, TField.ty,
+      stampRow, setCol_same, FTy.pty, FTy.rconv, rconv, readInt, toTimePoint, ht, stampRowT]
+    rfl
+  have hns : g ≠ .last_edit_time ∨ stamp = none := by
+    by_cases h4 : g = .last_edit_time
+    · right
+      cases stamp with
+      | none => rfl
+      | some t => exact absurd ⟨h4, rfl⟩ hstamped
+    · left; exact h4
+  rw [stampRowT_other _ _ hns]
+  have h1 : readSrc (stampRow stamp (applyFix uuid raw0)) (expectedSrc tSpec (TField.present s) g)
+      = readSrc (applyFix uuid raw0) (expectedSrc tSpec (TField.present s) g) := by
+    apply readSrc_congr
+    rw [tSpec_colOf]
+    rcases hns with h | h
+    · exact stampRow_other _ _ (fun hc => h (TField.col_inj (g := .last_edit_time) hc))
+    · subst h; rfl
+  rw [h1]
+  by_cases hg1 : g = .origin_track_id
+  · subst hg1
+    simp only [expectedSrc, TField.present, if_true, readSrc, tSpec_colOf, tSpec_tyOf, TField.col, TField.ty,
+      FTy.pty, FTy.rconv, rconv, fixRowT]
+    unfold applyFix
+    rw [hfix]
+    by_cases hun : originUnset r1 = true
+    · simp only [hun, if_true, fixOrigin]
+      rw [setCol_other _ _ (by decide), setCol_same, ← hAid, hrid]
+      show Res.ok (FVal.int i) = _
+      rw [← hrid]; rfl
+    · simp only [hun, Bool.false_eq_true, if_false]
+      rw [← hAot]
+  by_cases hg2 : g = .origin_database_uuid
+  · subst hg2
+    simp only [expectedSrc, TField.present, if_true, readSrc, tSpec_colOf, tSpec_tyOf, TField.col, TField.ty,
+      FTy.pty, FTy.rconv, rconv, fixRowT]
+    unfold applyFix
+    rw [hfix]
+    by_cases hun : originUnset r1 = true
+    · simp only [hun, if_true, fixOrigin]
+      rw [setCol_same]
+    · simp only [hun, Bool.false_eq_true, if_false]
+      rw [← hAou]
+  rw [fixRowT_other _ _ hg1 hg2, ← hA g]
+  apply readSrc_congr
+  rw [tSpec_colOf]
+  exact applyFix_other _ _ (fun h => hg1 (TField.col_inj (g := .origin_track_id) h))
+    (fun h => hg2 (TField.col_inj (g := .origin_database_uuid) h))
+
+
+theorem lastEdit_not_stamped : (tsCols.contains TCol.lastEditTime) = false := by decide
+
+theorem stampsField_present {s : Schema2} {f : TField} (h : stampsField s f = true) :
+    TField.present s .last_edit_time = true ∧ f ≠ .last_edit_time := by
+  unfold stampsField stamps at h
+  simp only [Bool.and_eq_true, List.any_cons, List.any_nil, Bool.or_false] at h
+  refine ⟨h.1, ?_⟩
+  intro hf; subst hf
+  have := h.2
+  rw [show TField.last_edit_time.col = TCol.lastEditTime from rfl, lastEdit_not_stamped] at this
+  cases this
+
+/-- The origin columns stay typed when a typed value is written through a setter. -/
+theorem originTyped_setCol {old : Raw TCol} (hold : originTyped old = true) {f : TField} {v : FVal} {x : Val}
+    (hv : wtv f.accTy v = true) (hw : wconv f.accTy.wconv v = .ok x) :
+    originTyped (setCol old f.col x) = true := by
+  simp only [originTyped, Bool.and_eq_true] at hold ⊢
+  constructor
+  · by_cases hf : f = .origin_track_id
+    · subst hf
+      obtain ⟨k, _, hk⟩ := written_i64 (v := v) hv rfl hw
+      subst hk
+      rw [show TField.origin_track_id.col = TCol.originTrackId from rfl, setCol_same]
+    · rw [setCol_other (c' := TCol.originTrackId) old x
+        (fun h => hf (TField.col_inj (f := f) (g := .origin_track_id) h.symm))]
+      exact hold.1
+  · by_cases hf : f = .origin_database_uuid
+    · subst hf
+      obtain ⟨u, _, hu⟩ := written_str (v := v) hv rfl hw
+      subst hu
+      rw [show TField.origin_database_uuid.col = TCol.originDatabaseUuid from rfl, setCol_same]
+    · rw [setCol_other (c' := TCol.originDatabaseUuid) old x
+        (fun h => hf (TField.col_inj (f := f) (g := .origin_database_uuid) h.symm))]
+      exact hold.2
+
+/-- **Per-column setter.**  After `set_<f>(i, v)` on an existing row, `get i`
+returns the row it returned before with member `f` replaced by `v` (and the
+database-maintained members re-derived: `normSetT`); every other row is untouched. -/
+theorem track_setc_get {s : Schema2} {st : TStmts} (ha : alignedT s st = true) {d d' : TDb} (hwf : d.Wf)
+    {i : Int} {f : TField} (hf : f ≠ .id) {v : FVal} (hv : wtv f.accTy v = true)
+    {g0 : Row TField} (hget0 : tGet st d i = .ok (some g0))
+    (hclk : in64 (d.clock * 1000000000) = true)
+    (h : tSetc s st d f i v = (d', .ok ())) :
+    tGet st d' i = .ok (some (normSetT s d.uuid d.clock f v g0))
+    ∧ (∀ j, j ≠ i → findRow .id d'.rows j = findRow .id d.rows j)
+    ∧ d'.seq = d.seq ∧ d'.uuid = d.uuid ∧ d'.clock = d.clock := by
+  have ha' := ha
+  simp only [alignedT, Bool.and_eq_true] at ha'
+  obtain ⟨⟨⟨⟨⟨⟨_, _⟩, _⟩, hsel⟩, _⟩, hsetters⟩, _⟩ := ha'
+  obtain ⟨a, x, n, hfa, hg, hw, hu, hn⟩ := tSetc_ok h
+  obtain ⟨a', hfa', _, hcol, hty, hguard⟩ := findAcc_aligned hsetters hf
+  rw [hfa] at hfa'
+  cases hfa'
+  rw [hty] at hw
+  rw [hcol] at hu
+  rw [hguard, guard_present hf] at hg
+  have hpres : f.present s = true := by simpa using hg
+  rcases tUpdateWhereId_ok hu with ⟨_, _, hn0⟩ | ⟨old, hold, _, hd'⟩
+  · omega
+  subst hd'
+  obtain ⟨hmem, hrid⟩ := findRow_some hold
+  have hinv : ∀ g, readSrc old (expectedSrc tSpec (TField.present s) g) = .ok (g0 g) :=
+    fun g => readRow_aligned_inv hsel TField.nodup_all (tGet_found hold hget0) (TField.mem_all g)
+  -- the row after the SET, before the triggers
+  have hraw0 : assign old [(f.col, x)] = setCol old f.col x := rfl
+  have hA : ∀ g, readSrc (setCol old f.col x) (expectedSrc tSpec (TField.present s) g) = .ok (setMember f v g0 g) := by
+    intro g
+    unfold setMember
+    by_cases hgf : g = f
+    · subst hgf
+      simp only [if_true, expectedSrc, hpres, readSrc, tSpec_colOf, tSpec_tyOf, setCol_same]
+      exact acc_write_read g hv hw
+    · simp only [hgf, if_false]
+      rw [← hinv g]
+      apply readSrc_congr
+      rw [tSpec_colOf]
+      exact setCol_other _ _ (fun hc => hgf (TField.col_inj hc))
+  have htyped : originTyped (setCol old f.col x) = true := originTyped_setCol (hwf.typed old hmem) hv hw
+  have hrid0 : rowId .id (setCol old f.col x) = i := by
+    unfold rowId
+    rw [setCol_other (c' := TCol.id) old x (fun hc => hf (TField.col_inj (f := f) (g := .id) hc.symm))]
+    exact hrid
+  have hstampEq : stampOf s d.clock (List.map (fun x => x.1) [(f.col, x)]) = (if stampsField s f then some d.clock else none) := rfl
+  have hst : ∀ t, (if stampsField s f then some d.clock else none) = some t →
+      in64 (t * 1000000000) = true ∧ TField.present s .last_edit_time = true := by
+    intro t ht
+    split at ht
+    · rename_i hs
+      cases ht
+      exact ⟨hclk, (stampsField_present hs).1⟩
+    · cases ht
+  have hnew : rowId .id (afterUpdate s d (List.map (fun x => x.1) [(f.col, x)]) (assign old [(f.col, x)])) = i := by
+    unfold afterUpdate
+    rw [rowId_stampRow, rowId_applyFix, hraw0]; exact hrid0
+  refine ⟨?_, ?_, rfl, rfl, rfl⟩
+  · unfold tGet
+    simp only
+    rw [findRow_updRow_same .id d.rows i _ hold hnew]
+    simp only
+    unfold afterUpdate
+    rw [hstampEq, hraw0]
+    rw [readRow_aligned _ hsel TField.nodup_all TField.mem_all
+      (read_afterUpdate hA htyped hrid0 _ hst)]
+    rfl
+  · intro j hj
+    exact findRow_updRow_other .id d.rows i j _ hj (fun _ _ _ => hnew)
 
 end Table
 end EngineModel
